@@ -248,3 +248,104 @@ func natsReplyBufferLimit(ctx *core.Ctx, r *RT, rule string) {
 		ctx.Unresolved(rule, "NATS server reply buffer", "no bounded output buffer in a function that publishes on NATS")
 	}
 }
+
+// packageStateMutations lists package-level variables (outside the exempt
+// package) that are written after initialisation by functions of the given
+// cone: assigned outside init, or a map/slice mutated in place — directly or
+// through a function that updates the container it is handed.
+func packageStateMutations(cone []*ssa.Function, all []*ssa.Function, exempt *ssa.Package) map[*ssa.Global]string {
+	// summary: which parameters does a function mutate in place (map update / element store / append-assign is not in place)
+	mutates := map[*ssa.Function]map[int]bool{}
+	paramIndex := func(fn *ssa.Function, v ssa.Value) int {
+		for i, p := range fn.Params {
+			if ssa.Value(p) == ssax.Strip(v) {
+				return i
+			}
+		}
+		return -1
+	}
+	changed := true
+	for changed {
+		changed = false
+		for _, fn := range all {
+			mark := func(i int) {
+				if i < 0 {
+					return
+				}
+				if mutates[fn] == nil {
+					mutates[fn] = map[int]bool{}
+				}
+				if !mutates[fn][i] {
+					mutates[fn][i] = true
+					changed = true
+				}
+			}
+			ssax.Instrs(fn, func(in ssa.Instruction) {
+				switch x := in.(type) {
+				case *ssa.MapUpdate:
+					mark(paramIndex(fn, x.Map))
+				case *ssa.Store:
+					if ia, ok := x.Addr.(*ssa.IndexAddr); ok {
+						mark(paramIndex(fn, ia.X))
+					}
+				case ssa.CallInstruction:
+					c, ok := ssax.AsCall(in)
+					if !ok || c.Static == nil {
+						return
+					}
+					for j, a := range c.Common.Args {
+						if mutates[c.Static][j] {
+							mark(paramIndex(fn, a))
+						}
+					}
+				}
+			})
+		}
+	}
+	out := map[*ssa.Global]string{}
+	globalOf := func(v ssa.Value) *ssa.Global {
+		if u, ok := ssax.Strip(v).(*ssa.UnOp); ok {
+			if g, ok := u.X.(*ssa.Global); ok {
+				return g
+			}
+		}
+		return nil
+	}
+	for _, fn := range cone {
+		if fn.Name() == "init" || strings.HasPrefix(fn.Name(), "init#") {
+			continue
+		}
+		ssax.Instrs(fn, func(in ssa.Instruction) {
+			note := func(g *ssa.Global, how string) {
+				if g == nil || g.Pkg == exempt || strings.HasPrefix(g.Name(), "init$") {
+					return
+				}
+				if _, seen := out[g]; !seen {
+					out[g] = how + " in " + QName(fn)
+				}
+			}
+			switch x := in.(type) {
+			case *ssa.Store:
+				if g, ok := x.Addr.(*ssa.Global); ok {
+					note(g, "assigned")
+				}
+				if ia, ok := x.Addr.(*ssa.IndexAddr); ok {
+					note(globalOf(ia.X), "element stored")
+				}
+			case *ssa.MapUpdate:
+				note(globalOf(x.Map), "map updated")
+			case ssa.CallInstruction:
+				c, ok := ssax.AsCall(in)
+				if !ok || c.Static == nil {
+					return
+				}
+				for j, a := range c.Common.Args {
+					if mutates[c.Static][j] {
+						note(globalOf(a), "handed to "+QName(c.Static)+", which updates it,")
+					}
+				}
+			}
+		})
+	}
+	return out
+}
